@@ -5,9 +5,24 @@
 // contracts are TRUSTED frame conditions (what they may write), used to verify the hash functions that call them.
 package transforms
 
+// The dispatcher is verified: whatever the image type, only the pixel buffer is written, and only by one of the three
+// conversion kernels below. The kernels themselves are floating-point code; their contracts are trusted frames.
 //@ func Rgb2GrayFast
-//@   trusted floating-point pixel conversion; only the frame (writes the pixel buffer) is used
+//@   props C19 C04
+//@   requires colorImg != nil && pixels != nil
 //@   modifies mem(*pixels)
+
+//@ func PixelYCnCRGray
+//@   trusted floating-point pixel conversion; only the frame (writes the pixel buffer) is used
+//@   modifies mem(pixels)
+
+//@ func rgb2GrayRGBA
+//@   trusted floating-point pixel conversion; only the frame (writes the pixel buffer) is used
+//@   modifies mem(pixels)
+
+//@ func rgb2GrayDefault
+//@   trusted floating-point pixel conversion; only the frame (writes the pixel buffer) is used
+//@   modifies mem(pixels)
 
 //@ func DCT2DHash64
 //@   trusted floating-point DCT; only the frame (transforms the pixel buffer in place, returns 64 coefficients) is used
